@@ -342,8 +342,12 @@ class World:
                                if v["mode"] == "w")
                 aname = wopen[cs.draw("arc", len(wopen))]
                 arc = self.archives[aname]
-                member = cs.choice("memberdir", ["", "sub/", "sub/dir/",
-                                                 "x y/"]) + lname + ".csv"
+                mdir = cs.choice("memberdir", ["", "sub/", "sub/dir/", "x y/"])
+                base = cs.choice("memberbase", [lname, "data", "flow", lname])
+                member = mdir + base + ".csv"
+                if any(r.get("archive") == aname and r.get("member") == member
+                       for r in self.store.values()):
+                    member = mdir + lname + ".csv"   # really the same member
                 marg = member if cs.flip("m.str", 60) else Path(member)
                 csvmod.write_csv(df, marg, comment, src, archive=arc["zf"],
                                  **kw)
@@ -693,7 +697,15 @@ def run(cs, log, ctx):
                                   "Asia/Kolkata"])
             os.environ["TZ"] = tz          # this run's process only (forked)
             _time.tzset()
-            log.ev("TZ", tz)
+            # standard variables of the process environment that a csv writer
+            # has no business depending on
+            sde = cs.choice("SOURCE_DATE_EPOCH", [None, None, "0", "315532800",
+                                                  "4102444800"])
+            if sde is None:
+                os.environ.pop("SOURCE_DATE_EPOCH", None)
+            else:
+                os.environ["SOURCE_DATE_EPOCH"] = sde
+            log.ev("env", tz, sde)
             nsteps = cs.between("nsteps", 3, 25)
             enabled = {k: not cs.flip("off." + k, 15) for k, _ in OPS}
             enabled["write"] = True
